@@ -56,8 +56,13 @@ def eager_cat_homogeneous(name, part_name, *parts):
         white_vecs.append(ops.expand(white_vec, shape + (-1,)))
         prec_sqrts.append(ops.expand(prec_sqrt, shape + (-1, -1)))
     if part_name != name:
-        del inputs[part_name]
-        del int_inputs[part_name]
+        # The new name takes the place of part_name, i.e. the leading dimension.
+        inputs = OrderedDict(
+            (name if k == part_name else k, v) for k, v in inputs.items()
+        )
+        int_inputs = OrderedDict(
+            (name if k == part_name else k, v) for k, v in int_inputs.items()
+        )
 
     # Pad to ensure ranks agree.
     max_rank = max(w.shape[-1] for w in white_vecs)
